@@ -470,7 +470,7 @@ def _run_check(pid, tier, seed, replay=None):
         od = os.path.join(outdir, sub) if sub else outdir
         args = list(spec.get('harness_args', {}).get(tier, []))
         rc, out = run_harness(hname, od, sd, tier, args, replay=rp,
-                              timeout=spec.get('harness_timeout', {}).get(tier, 900 if tier == 'quick' else 7200),
+                              timeout=max(spec.get('harness_timeout', {}).get(tier, 0), 1500 if tier == 'quick' else 7200),
                               taskset=spec.get('taskset'), env=spec.get('harness_env'))
         cs = load_cases(od)
         return rc, out, cs
